@@ -106,7 +106,8 @@ func VerifC07Encoding() {
 	zv.Observe("result", res)
 }
 
-var c07Ranges = []string{"*/*", "text/*", "text/plain", "application/json", "image/png"}
+// ("tex/*" and "app/*" admit nothing: a type range matches whole types only)
+var c07Ranges = []string{"*/*", "text/*", "text/plain", "application/json", "image/png", "tex/*", "app/*"}
 
 // c07QText returns a q parameter text: absent, q=0, q=1, q=0.<digits>.
 func c07QText(name string, digits int) string {
